@@ -7,6 +7,8 @@
 -/
 import OptreeModel.Lemmas.EqHash
 import OptreeModel.Generated.Hash
+import OptreeModel.Lemmas.EncEq
+import OptreeModel.Lemmas.EncFlatten
 
 namespace Optree
 
@@ -131,5 +133,122 @@ def C06_demoB : Spec := { C06_demoA with ns := "ns" }
 example : (match equalTo C06_demoA C06_demoB with | .ok true => true | _ => false) = true := by decide
 /-- … so a hash that mixed in the namespace would separate equal treespecs -/
 example : hashInput ["namespace"] [] C06_demoA ≠ hashInput ["namespace"] [] C06_demoB := by decide
+
+/-! ### refinement: `==` decides equality of shapes
+
+`STree.eqB` (Lemmas/EncEq.lean) is structural equality of shapes as the property words it: same node
+kinds, arities, classes / metadata / keys *in the same order* / maxlen / default factory and identical
+registrations at every node; custom path entries and the remembered insertion order of dict keys do
+not take part. -/
+
+/-- **`a == b` is `True` exactly when the shapes are equal**, `none_is_leaf` agrees and the namespaces are
+compatible — for all well-formed shapes of any size -/
+theorem C06_eq_iff (a b : STree) (ha : a.wf = true) (hb : b.wf = true) (nil nil' : Bool) (ns ns' : String) :
+    equalTo (a.spec nil ns) (b.spec nil' ns') = .ok true ↔
+      (nil = nil' ∧ nsCompatible ns ns' = true ∧ a.eqB b = true) :=
+  equalTo_enc_true a b ha hb nil nil' ns ns'
+
+/-- hence two treespecs made by flattening compare equal iff their shapes are equal (same options) -/
+theorem C06_eq_of_flatten (cfg : Cfg) (t u : PyObj) (ht : t.wf = true) (hu : u.wf = true)
+    (lt lu : List PyObj) (st su : Spec) (h1 : flatten cfg t = .ok (lt, st)) (h2 : flatten cfg u = .ok (lu, su)) :
+    ∃ a b : STree, a.wf = true ∧ b.wf = true ∧ st = a.spec cfg.noneIsLeaf st.ns ∧ su = b.spec cfg.noneIsLeaf su.ns ∧
+      (equalTo st su = .ok true ↔ (nsCompatible st.ns su.ns = true ∧ a.eqB b = true)) := by
+  obtain ⟨a, ha, ea, _⟩ := flatten_isEnc cfg t ht lt st h1
+  obtain ⟨b, hb, eb, _⟩ := flatten_isEnc cfg u hu lu su h2
+  refine ⟨a, b, ha, hb, ea, eb, ?_⟩
+  rw [ea, eb, C06_eq_iff a b ha hb]
+  simp [STree.spec]
+
+mutual
+theorem C06_shape_eq_refl : ∀ a : STree, a.eqB a = true
+  | .leaf => rfl
+  | .node i cs => by
+      simp only [STree.eqB, NInfo.eqv, beq_self_eq_true, Bool.true_and, Bool.and_eq_true]
+      exact ⟨by cases i.data.isSome <;> simp, C06_shape_eq_reflL cs⟩
+theorem C06_shape_eq_reflL : ∀ cs : List STree, STree.eqL cs cs = true
+  | [] => rfl
+  | c :: cs => by simp [STree.eqL, C06_shape_eq_refl c, C06_shape_eq_reflL cs]
+end
+
+theorem NInfo.eqv_symm_of (i j : NInfo) (h : i.eqv j = true) : j.eqv i = true := by
+  unfold NInfo.eqv at *
+  simp only [Bool.and_eq_true, beq_iff_eq, Bool.or_eq_true, Bool.not_eq_true'] at *
+  obtain ⟨⟨⟨a1, a2⟩, a3⟩, a4⟩ := h
+  refine ⟨⟨⟨a1.symm, a2.symm⟩, a3.symm⟩, ?_⟩
+  rcases a4 with a4 | a4
+  · left; rw [← a2]; exact a4
+  · right; exact a4.symm
+
+theorem NInfo.eqv_symm (i j : NInfo) : i.eqv j = j.eqv i := by
+  cases h : i.eqv j with
+  | true => exact (NInfo.eqv_symm_of i j h).symm
+  | false =>
+    cases h' : j.eqv i with
+    | false => rfl
+    | true => rw [NInfo.eqv_symm_of j i h'] at h; exact absurd h (by simp)
+
+theorem NInfo.eqv_trans (i j k : NInfo) (h1 : i.eqv j = true) (h2 : j.eqv k = true) : i.eqv k = true := by
+  unfold NInfo.eqv at *
+  simp only [Bool.and_eq_true, beq_iff_eq, Bool.or_eq_true, Bool.not_eq_true'] at *
+  obtain ⟨⟨⟨a1, a2⟩, a3⟩, a4⟩ := h1
+  obtain ⟨⟨⟨b1, b2⟩, b3⟩, b4⟩ := h2
+  refine ⟨⟨⟨a1.trans b1, a2.trans b2⟩, a3.trans b3⟩, ?_⟩
+  rcases a4 with a4 | a4
+  · left; exact a4
+  · rcases b4 with b4 | b4
+    · left; rw [a2]; exact b4
+    · right; exact a4.trans b4
+
+mutual
+theorem C06_shape_eq_symm : ∀ a b : STree, a.eqB b = b.eqB a
+  | .leaf, .leaf => rfl
+  | .leaf, .node _ _ => rfl
+  | .node _ _, .leaf => rfl
+  | .node i cs, .node j ds => by
+      simp only [STree.eqB, NInfo.eqv_symm i j, C06_shape_eq_symmL cs ds]
+theorem C06_shape_eq_symmL : ∀ cs ds : List STree, STree.eqL cs ds = STree.eqL ds cs
+  | [], [] => rfl
+  | [], _ :: _ => rfl
+  | _ :: _, [] => rfl
+  | c :: cs, d :: ds => by simp only [STree.eqL, C06_shape_eq_symm c d, C06_shape_eq_symmL cs ds]
+end
+
+mutual
+theorem C06_shape_eq_trans : ∀ a b c : STree, a.eqB b = true → b.eqB c = true → a.eqB c = true
+  | .leaf, .leaf, .leaf, _, _ => rfl
+  | .leaf, .leaf, .node _ _, _, h => by simp [STree.eqB] at h
+  | .leaf, .node _ _, _, h, _ => by simp [STree.eqB] at h
+  | .node _ _, .leaf, _, h, _ => by simp [STree.eqB] at h
+  | .node _ _, .node _ _, .leaf, _, h => by simp [STree.eqB] at h
+  | .node i cs, .node j ds, .node k es, h1, h2 => by
+      simp only [STree.eqB, Bool.and_eq_true] at h1 h2 ⊢
+      exact ⟨NInfo.eqv_trans i j k h1.1 h2.1, C06_shape_eq_transL cs ds es h1.2 h2.2⟩
+theorem C06_shape_eq_transL : ∀ cs ds es : List STree, STree.eqL cs ds = true → STree.eqL ds es = true →
+    STree.eqL cs es = true
+  | [], [], [], _, _ => rfl
+  | [], [], _ :: _, _, h => by simp [STree.eqL] at h
+  | [], _ :: _, _, h, _ => by simp [STree.eqL] at h
+  | _ :: _, [], _, h, _ => by simp [STree.eqL] at h
+  | _ :: _, _ :: _, [], _, h => by simp [STree.eqL] at h
+  | c :: cs, d :: ds, e :: es, h1, h2 => by
+      simp only [STree.eqL, Bool.and_eq_true] at h1 h2 ⊢
+      exact ⟨C06_shape_eq_trans c d e h1.1 h2.1, C06_shape_eq_transL cs ds es h1.2 h2.2⟩
+end
+
+/-- `==` between treespecs with the same options is an equivalence relation (transitivity is where the
+empty-namespace wildcard could bite: it is stated for equal namespaces) -/
+theorem C06_trans_same_ns (a b c : STree) (ha : a.wf = true) (hb : b.wf = true) (hc : c.wf = true)
+    (nil : Bool) (ns : String)
+    (h1 : equalTo (a.spec nil ns) (b.spec nil ns) = .ok true)
+    (h2 : equalTo (b.spec nil ns) (c.spec nil ns) = .ok true) :
+    equalTo (a.spec nil ns) (c.spec nil ns) = .ok true := by
+  rw [C06_eq_iff a b ha hb] at h1
+  rw [C06_eq_iff b c hb hc] at h2
+  rw [C06_eq_iff a c ha hc]
+  exact ⟨rfl, h1.2.1, C06_shape_eq_trans a b c h1.2.2 h2.2.2⟩
+
+/-- equal shapes have equal counts, so the count guards of `EqualTo` never change the answer -/
+theorem C06_eq_counts (a b : STree) (h : a.eqB b = true) : a.size = b.size ∧ a.leaves = b.leaves :=
+  STree.eqB_counts a b h
 
 end Optree
